@@ -43,6 +43,19 @@ impl Config {
         &self.loggers
     }
 
+    /// A `Config` assembled directly from parts that the caller guarantees to be consistent
+    /// (what `ConfigBuilder::build` returns for a valid configuration), without running the
+    /// validation.
+    #[cfg(log4rs_verif)]
+    #[doc(hidden)]
+    pub fn verif_from_parts(appenders: Vec<Appender>, root: Root, loggers: Vec<Logger>) -> Config {
+        Config {
+            appenders,
+            root,
+            loggers,
+        }
+    }
+
     pub(crate) fn unpack(self) -> (Vec<Appender>, Root, Vec<Logger>) {
         let Config {
             appenders,
